@@ -32,13 +32,33 @@ def run(ctx):
     counter = None
     if isinstance(seq_expr, ast.Subscript) and (A.chain(seq_expr.value) or "").startswith("self.") and A.norm(seq_expr.slice) == "stream_name":
         counter = A.chain(seq_expr.value)[5:]
+    elif isinstance(seq_expr, ast.Name):
+        # a local that holds the freshly incremented per-stream count: N = self.<c>.get(stream_name, 0) + 1 (or self.<c>[stream_name] + 1)
+        # and self.<c>[stream_name] = N, both before the event is built
+        gpe = q.cfg(pe, q.quiet_policy(repo))
+        st_evt = A.enclosing_stmt(evt_dict, A.parents(pe.node))
+        ids_ = gpe.nodes_of(st_evt) if st_evt is not None else []
+        defs = q.reaching_defs(gpe, ids_[0], seq_expr.id) if ids_ else []
+        if len(defs) == 1 and defs[0][0] == "assign" and defs[0][1] is not None:
+            v = defs[0][1]
+            if isinstance(v, ast.BinOp) and isinstance(v.op, ast.Add) and A.norm(v.right) == "1":
+                base = v.left
+                c = None
+                if isinstance(base, ast.Call) and isinstance(base.func, ast.Attribute) and base.func.attr == "get" and len(base.args) == 2 \
+                        and A.norm(base.args[0]) == "stream_name" and A.norm(base.args[1]) == "0":
+                    c = A.chain(base.func.value)
+                elif isinstance(base, ast.Subscript) and A.norm(base.slice) == "stream_name":
+                    c = A.chain(base.value)
+                if c and c.startswith("self.") and any(A.norm(s_) == f"{c}[stream_name] = {seq_expr.id}" for s_ in A.walk_stmts(pe.node.body)):
+                    counter = c[5:]
     ctx.ob("C39.D1-per-stream-counter", cname(pe, None, "seq_num = self.<counter>[stream_name]"), counter is not None,
            "" if counter else f"seq_num is `{A.norm(seq_expr)}`: not a per-stream counter (events of different streams share numbers)", nontrivial=True, where=where(pe, pe.node))
     if counter is None:
         return
     incs = [s for s in A.walk_stmts(pe.node.body) if isinstance(s, (ast.Assign, ast.AugAssign)) and any(
         isinstance(t, ast.Subscript) and A.chain(t.value) == f"self.{counter}" and A.norm(t.slice) == "stream_name" for t in A.targets_of(s))]
-    ok = len(incs) == 1 and (("+ 1" in A.norm(incs[0])) or (isinstance(incs[0], ast.AugAssign) and A.norm(incs[0].value) == "1"))
+    ok = len(incs) == 1 and (("+ 1" in A.norm(incs[0])) or (isinstance(incs[0], ast.AugAssign) and A.norm(incs[0].value) == "1")
+                             or (isinstance(seq_expr, ast.Name) and A.norm(incs[0].value) == seq_expr.id))
     ctx.ob("C39.D1-per-stream-counter", cname(pe, None, "the stream's counter is incremented exactly once per event"), ok,
            "" if ok else f"{len(incs)} increment sites", nontrivial=True, where=where(pe, pe.node))
     emits = [s for s in pe.node.body if isinstance(s, ast.Expr) and "self.emit(DocumentNames.event" in A.norm(s)]
@@ -53,7 +73,8 @@ def run(ctx):
     ok = len(ne) == 1 and f"self.{counter}" in A.norm(ne[0].value) and "self._descriptors" not in A.norm(ne[0].value)
     ctx.ob("C39.D1-num-events-from-counter", cname(st, None, f"num_events derives from self.{counter}"), ok,
            "" if ok else f"num_events is `{A.norm(ne[0].value) if ne else '?'}`: it does not count the events emitted per stream", nontrivial=True, where=where(st, st.node))
-    used = [n for n in A.walk_local(st.node) if isinstance(n, ast.Call) and A.call_name(n) == "dict" and any(k.arg == "num_events" and A.norm(k.value) == "num_events" for k in n.keywords)]
+    stop_docs = [d for d in (A.dict_items(n) for n in A.walk_local(st.node)) if d and "num_events" in d and "run_start" in d]
+    used = [d for d in stop_docs if A.norm(d["num_events"]) == "num_events"]
     ctx.ob("C39.D1-num-events-from-counter", cname(st, None, "that value is what the stop document carries"), bool(used), "" if used else "num_events not placed in the stop document", where=where(st, st.node))
     seq = [A.norm(s) for s in st.node.body]
     i_emit = next((i for i, t in enumerate(seq) if "self.emit(DocumentNames.stop" in t), None)
@@ -72,13 +93,13 @@ def run(ctx):
     ctx.ob("C39.D2-validated-and-ordered", cname(em, None, "validate, then dispatch"), ok, "" if ok else f"{b}", where=where(em, em.node))
     n_direct = sum(1 for k, f in repo.funcs.items() if k.startswith(f"{ST}:{CL}.") and f.key != em.key for c in A.calls_in(f.node) if (A.call_name(c) or "").endswith("dispatcher.process"))
     ctx.ob("C39.D2-validated-and-ordered", f"{ST}:{CL}: emit is the only caller of dispatcher.process", n_direct == 0, "" if n_direct == 0 else "documents bypass validation")
-    desc_if = [s for s in pe.node.body if isinstance(s, ast.If) and "not in self._descriptors" in A.norm(s.test)]
+    desc_if = [s for s in pe.node.body if isinstance(s, ast.If) and any("self.emit(DocumentNames.descriptor" in A.norm(x) for x in A.walk_stmts(s.body))]
     ok = bool(desc_if) and any("self.emit(DocumentNames.descriptor" in A.norm(x) for x in A.walk_stmts(desc_if[0].body)) and emits and pe.node.body.index(desc_if[0]) < pe.node.body.index(emits[0])
     ctx.ob("C39.D2-validated-and-ordered", cname(pe, None, "a stream's descriptor is emitted before its first event"), ok, "" if ok else "event may precede its descriptor", where=where(pe, pe.node))
     t = A.norm(pe.node)
     ok = "'run_start': self._stream_start_uid" in t and "'descriptor': desc_uid" in t and "desc_uid = self._descriptors[stream_name][desc_id]['uid']" in t
     ctx.ob("C39.D2-validated-and-ordered", cname(pe, None, "descriptor -> new start uid; event -> its stream's new descriptor uid"), ok, "" if ok else "references changed", where=where(pe, pe.node))
-    ok = "run_start=self._stream_start_uid" in A.norm(st.node)
+    ok = bool(stop_docs) and all(A.norm(d["run_start"]) == "self._stream_start_uid" for d in stop_docs)
     ctx.ob("C39.D2-validated-and-ordered", cname(st, None, "stop -> new start uid"), ok, "" if ok else "stop references another run", where=where(st, st.node))
 
 
